@@ -31,6 +31,10 @@ pub struct ACfg {
     /// a real-time ticker of 1 ms (sweeps follow every clock move) or none at all (expired entries
     /// stay unswept for the whole life)
     pub ticker: bool,
+    /// call the type-changing setters after the plain ones
+    pub late_setters: bool,
+    /// the callback leaves `on_reject` to the trait's default
+    pub default_reject: bool,
 }
 
 pub fn random_acfg(rng: &mut Rng) -> ACfg {
@@ -44,6 +48,8 @@ pub fn random_acfg(rng: &mut Rng) -> ACfg {
         coster: rng.below(2) as u8,
         validator: *rng.pick(&[0u8, 0, 0, 1, 2, 3]),
         ticker: rng.chance(1, 2),
+        late_setters: rng.chance(1, 2),
+        default_reject: rng.chance(1, 4),
     }
 }
 
@@ -274,19 +280,37 @@ pub struct AGenOpts {
 }
 
 async fn life(out: &mut Out, rng: &mut Rng, cfg: &ACfg, g: &AGenOpts) {
-    let cb = RecCallback::default();
-    let built = AsyncCacheBuilder::<u64, u64>::new(cfg.num_counters, cfg.max_cost)
-        .set_key_builder(SplitKeyBuilder)
-        .set_coster(TableCoster(cfg.coster))
-        .set_update_validator(TableValidator(cfg.validator))
-        .set_callback(cb.clone())
-        .set_hasher(DetHasher::default())
-        .set_buffer_size(cfg.buf_size)
-        .set_buffer_items(cfg.buf_items)
-        .set_metrics(cfg.metrics)
-        .set_ignore_internal_cost(cfg.ignore_internal)
-        .set_cleanup_duration(if cfg.ticker { Duration::from_millis(1) } else { Duration::from_secs(3600) })
-        .finalize(tokio::spawn);
+    let cb = RecCallback(Default::default(), cfg.default_reject);
+    let cleanup = if cfg.ticker { Duration::from_millis(1) } else { Duration::from_secs(3600) };
+    let _ = verif::take_processor_config();
+    let built = if cfg.late_setters {
+        AsyncCacheBuilder::<u64, u64>::new(cfg.num_counters, cfg.max_cost)
+            .set_buffer_size(cfg.buf_size)
+            .set_buffer_items(cfg.buf_items)
+            .set_metrics(cfg.metrics)
+            .set_ignore_internal_cost(cfg.ignore_internal)
+            .set_cleanup_duration(cleanup)
+            .set_hasher(DetHasher::default())
+            .set_key_builder(SplitKeyBuilder)
+            .set_coster(TableCoster(cfg.coster))
+            .set_update_validator(TableValidator(cfg.validator))
+            .set_callback(cb.clone())
+            .finalize(tokio::spawn)
+    } else {
+        AsyncCacheBuilder::<u64, u64>::new(cfg.num_counters, cfg.max_cost)
+            .set_key_builder(SplitKeyBuilder)
+            .set_coster(TableCoster(cfg.coster))
+            .set_update_validator(TableValidator(cfg.validator))
+            .set_callback(cb.clone())
+            .set_hasher(DetHasher::default())
+            .set_buffer_size(cfg.buf_size)
+            .set_buffer_items(cfg.buf_items)
+            .set_metrics(cfg.metrics)
+            .set_ignore_internal_cost(cfg.ignore_internal)
+            .set_cleanup_duration(cleanup)
+            .finalize(tokio::spawn)
+    };
+    let proc_cfg = verif::take_processor_config();
     let c: ACache = match built {
         Ok(c) => c,
         Err(e) => {
@@ -300,8 +324,22 @@ async fn life(out: &mut Out, rng: &mut Rng, cfg: &ACfg, g: &AGenOpts) {
     verif::obs_enable(true);
     verif::obs_drain();
     let bufcap = verif::async_cache_buffer_cap(&c);
-    out.line(&format!(
-        "c.init itemsize={} ignore={} bufcap={} ringcap={} pqcap=inf metrics={} max={} samples=5 validator={} coster={} counters={} cfgbuf={} late=0 flavour=async",
+    let (eff_counters, eff_ring) = verif::async_cache_effective_sizes(&c);
+    let snap0 = verif::async_cache_snapshot(&c, |v| *v);
+    let eff = format!(
+        " eff_ignore={} eff_cleanup={} cfgcleanup={} eff_counters={} eff_ringcap={} eff_metrics={} cfgmax={} defrej={} late={}",
+        proc_cfg.map_or(cfg.ignore_internal as u8, |p| p.0 as u8),
+        proc_cfg.map_or(cleanup.as_nanos() as u64, |p| p.1),
+        cleanup.as_nanos() as u64,
+        eff_counters,
+        eff_ring,
+        snap0.metrics.is_some() as u8,
+        cfg.max_cost,
+        cfg.default_reject as u8,
+        cfg.late_setters as u8
+    );
+    out.line(&(format!(
+        "c.init itemsize={} ignore={} bufcap={} ringcap={} pqcap=inf metrics={} max={} samples=5 validator={} coster={} counters={} cfgbuf={} flavour=async",
         verif::async_cache_item_size(&c),
         cfg.ignore_internal as u8,
         bufcap.unwrap_or(0),
@@ -312,13 +350,13 @@ async fn life(out: &mut Out, rng: &mut Rng, cfg: &ACfg, g: &AGenOpts) {
         cfg.coster,
         cfg.num_counters,
         cfg.buf_size
-    ));
+    ) + &eff));
     out.line(&format!("c.clock {}", start));
     let mut s = AStepper { c, cb, cfg: cfg.clone(), coster: TableCoster(cfg.coster), out, now: start, next_val: 1, next_id: 1, closed: false };
     let universe = rng.range(2, 10);
     // the key range starts at a different index hash in different lives: striped structures (the
     // metrics counters live in 25 stripes picked by `hash % 25`) must be exercised on every stripe
-    let base = *rng.pick(&[0u64, 0, 20, 23, 45, 70]);
+    let base = *rng.pick(&[0u64, 0, 20, 23, 45, 70, 250, 254, 506, 1020, 65_530, 4_294_967_280]);
     let item = if cfg.ignore_internal { 0 } else { verif::async_cache_item_size(&s.c) as i64 };
     let unit = (cfg.max_cost / 6).max(1);
     for _ in 0..g.ops {
